@@ -14,13 +14,18 @@ LEVEL = "model_checking"
 
 
 class StubEC:
-    """records register accesses of one terminal; no bus semantics needed for this property"""
+    """records register accesses of one terminal; no bus semantics needed for this property.  dead: the terminal
+    does not answer any more (every access ends in the EtherCatError a lost datagram gives)"""
     def __init__(self):
         self.log = []
+        self.dead = False
 
     async def roundtrip(self, cmd, pos, offset, *args, data=None, idx=0):
-        self.log.append((cmd.name, offset, args, data))
         await asyncio.sleep(0)
+        if self.dead:
+            from ebpfcat.ethercat import EtherCatError
+            raise EtherCatError("datagram was not processed")
+        self.log.append((cmd.name, offset, args, data))
         return ()
 
 
@@ -81,11 +86,19 @@ async def replay(script, n, addr=IDENT):
                     deact = (w[0][1] - 0x60c) // 0x10
                 ev.append(dict(op="unmap", m=m, deact=deact, tbl=tbl()))
             else:
+                # abort: an exception thrown into the body; unmapfail / abortfail: the mapping ends (normally / by an
+                # exception) while the terminal does not answer - whatever becomes of the switch-off datagram, the
+                # master's table must give the FMMU back (Fmmu: UnmapAbort; the registers are not judged)
+                ec.dead = op["op"].endswith("fail")
                 try:
-                    await cm.__aexit__(Boom, Boom(), None)
-                except Boom:
+                    if op["op"] == "unmapfail":
+                        await cm.__aexit__(None, None, None)
+                    else:
+                        await cm.__aexit__(Boom, Boom(), None)
+                except Exception:                      # noqa: Boom or the bus error
                     pass
-                ev.append(dict(op="abort", m=m, tbl=tbl()))
+                ec.dead = False
+                ev.append(dict(op="abort", m=m, tbl=tbl(), how=op["op"]))
     return dict(n=n, ev=ev, script=script, addr=addr)
 
 
@@ -196,17 +209,22 @@ CHECK_DEADLOCK FALSE
     ctx.tlc_stats(res)
     ctx.extra["mc_fmmu_addr"] = dict(distinct=res.distinct, generated=res.generated, MaxN=k)
     # 2. environment scripts from TLC
-    T.write_cfg(wd, "scripts.cfg", f"""SPECIFICATION SSpec
+    scripts = []
+    # mappings ending normally or by an exception; and (one step shorter) ending while the terminal is silent
+    for kinds, ml in (('"unmap", "abort"', maxlen), ('"unmap", "unmapfail", "abortfail"', maxlen - 1)):
+        T.write_cfg(wd, "scripts.cfg", f"""SPECIFICATION SSpec
 CONSTANTS Logicals = {{{", ".join(map(str, logicals))}}}
-          MaxLen = {maxlen}
+          MaxLen = {ml}
+          EndKinds = {{{kinds}}}
 INVARIANT Emit
 CHECK_DEADLOCK FALSE
 """)
-    res = T.require_clean(T.run(wd, "FmmuScripts", "scripts.cfg", workers=1, timeout=600), "FmmuScripts")
-    ctx.tlc_stats(res)
-    scripts = [r[0] for r in T.printed_records(res, "SCRIPT")]
-    if not scripts:
-        raise T.MachineryError("no scripts enumerated")
+        res = T.require_clean(T.run(wd, "FmmuScripts", "scripts.cfg", workers=1, timeout=600), "FmmuScripts")
+        ctx.tlc_stats(res)
+        found = [r[0] for r in T.printed_records(res, "SCRIPT")]
+        if not found:
+            raise T.MachineryError("no scripts enumerated")
+        scripts += [sc for sc in found if sc not in scripts]
     # shorter scripts are prefixes of these; all prefixes are validated on the way
     # 3. replay on the real code, 4. validate the recorded runs
     traces = []
